@@ -78,10 +78,11 @@ func workerMain(caseFile, resultFile string) {
 	}
 	var p *Platform
 	if c.Mode == "emu" {
-		p = BuildEmu(numGPUs, parseArch(c.Arch))
+		p = BuildEmu(numGPUs, parseArch(c.Arch), c.Parallel)
 	} else {
-		p = BuildTiming(numGPUs, c.GPUType, c.Knobs)
+		p = BuildTiming(numGPUs, c.GPUType, c.Knobs, c.Parallel)
 	}
+	fmt.Fprintf(os.Stderr, "PLATLAT-NOTE engine %T\n", p.Sim.GetEngine())
 	gpus := append([]int{}, c.GPUs...)
 	if c.Unified {
 		gpus = []int{p.Driver.CreateUnifiedGPU(nil, gpus)}
